@@ -20,6 +20,7 @@ mod cli;
 mod common;
 mod fam_array;
 mod fam_cli;
+mod fam_cliargs;
 mod fam_container;
 mod fam_create;
 mod fam_createlarge;
@@ -69,6 +70,7 @@ fn family(name: &str) -> Option<Runner> {
     Some(match name {
         "array" => fam_array::run,
         "cli" => fam_cli::run,
+        "cliargs" => fam_cliargs::run,
         "container" => fam_container::run,
         "create" => fam_create::run,
         "createlarge" => fam_createlarge::run,
